@@ -22,7 +22,7 @@ def countBrda (rs : List Rec) : Nat := rs.countP fun r => match r with
   | _ => false
 /-- number of `BRDA` records marked taken (last field `1`, not `-`) -/
 def countBrdaTaken (rs : List Rec) : Nat := rs.countP fun r => match r with
-  | .brda _ _ _ t => takenOf t
+  | .brda _ _ _ _ t => takenOf t
   | _ => false
 /-- number of `FN` records -/
 def countFn (rs : List Rec) : Nat := rs.countP fun r => match r with
